@@ -1,329 +1,10 @@
 /-
-Preservation of the invariant `Inv` (Compio.Lemmas.Wake) by every step of the wake-up model.
+Preservation of the invariant `Inv` (Compio.Lemmas.Wake) by every step of the wake-up model; it holds in every reachable state.
 -/
-import Compio.Lemmas.Wake
+import Compio.Lemmas.WakeInvD
 
 namespace Compio.Wake
 open Compio.TaskWord Compio.Gen
-
-macro "rt_step" h:ident : tactic => `(tactic| (
-  unfold rtStep at $h:ident
-  try unfold startLocal at $h:ident
-  try unfold drainDone at $h:ident
-  try unfold afterTick at $h:ident
-  repeat' split at $h:ident
-  all_goals (try simp only [Option.some.injEq, reduceCtorEq] at $h:ident)
-  all_goals (try subst $h:ident)
-  all_goals (try simp only [subPending, dropTask, startPoll, kWrite, doArm, doSubmit])))
-
-theorem mem_hotPush {d : Nat → Bool} {hot : List Nat} {t x : Nat} :
-    x ∈ hotPush d hot t ↔ x ∈ hot ∨ (x = t ∧ d t = false) := by
-  unfold hotPush
-  by_cases h1 : d t = true
-  · simp [h1]
-  · have h1' : d t = false := by simpa using h1
-    by_cases h2 : t ∈ hot
-    · simp [h1', h2]
-      rintro rfl; exact h2
-    · simp [h1', h2]
-
-theorem hotLive_push {d : Nat → Bool} {hot : List Nat} (x : Nat) (h : ∀ t, t ∈ hot → d t = false) :
-    ∀ t, t ∈ hotPush d hot x → d t = false := by
-  intro t ht
-  rcases mem_hotPush.1 ht with h1 | ⟨rfl, h1⟩
-  · exact h t h1
-  · exact h1
-
-theorem nodup_hotPush {d : Nat → Bool} {hot : List Nat} (x : Nat) (h : hot.Nodup) : (hotPush d hot x).Nodup := by
-  unfold hotPush
-  split
-  · exact h
-  · rename_i hc
-    simp only [Bool.or_eq_true, List.contains_eq_mem, decide_eq_true_eq, not_or] at hc
-    exact List.nodup_append.2 ⟨h, by simp, by
-      intro a ha b hb; simp at hb; subst hb; intro e; subst e; exact hc.2 ha⟩
-
-theorem hotLive_erase_upd {d : Nat → Bool} {hot : List Nat} (x : Nat) (hn : hot.Nodup)
-    (h : ∀ t, t ∈ hot → d t = false) : ∀ t, t ∈ hot.erase x → upd d x true t = false := by
-  intro t ht
-  rw [hn.mem_erase_iff] at ht
-  rw [upd_other _ _ _ _ ht.1]
-  exact h t ht.2
-
-theorem hotLive_erase {d : Nat → Bool} {hot : List Nat} (x : Nat) (h : ∀ t, t ∈ hot → d t = false) :
-    ∀ t, t ∈ hot.erase x → d t = false :=
-  fun t ht => h t (List.mem_of_mem_erase ht)
-
-
-set_option maxRecDepth 4000 in
-theorem g1_rt (s s' : State) (e : RtEv) (h : Inv s) (hs : rtStep s e = some s') :
-    s'.flag ≤ 3 ∧ s'.uflow = false ∧ s'.pending = s'.sync.length + cnt s' resvP + drained s'.rt ∧
-    (∀ t, t ∈ s'.hot → s'.dropped t = false) ∧
-    (∀ t, TaskState.isCompleted (s'.word t) = true → s'.dropped t = true) ∧
-    s'.hot.Nodup ∧ (∀ w, prePush (s'.wk w).pc = true → (s'.wk w).pushed = false) ∧
-    (waitPcs s'.rt = true → s'.hot ≠ [] → s'.zero = true) ∧ (extPc s'.rt = true → s'.cfg.loop = .ext) := by
-  have hx := h.extOnly
-  have hn := h.hotNodup
-  have hnp := h.notPushed
-  have hp := h.pend
-  have hu := h.noUflow
-  have hf := h.flagLe
-  have hh := h.hotLive
-  have hc := h.compl
-  have hz := h.zeroHot
-  rt_step hs
-  all_goals (refine ⟨?_, ?_, ?_, ?_, ?_, ?_, ?_, ?_, ?_⟩)
-  all_goals (try (first | exact hf | exact hu | exact hh | exact hc | exact wake_le hf | (simp only [reset_fst]; omega) | (simp only [set_eq]; omega) | exact hotLive_push _ hh | exact hotLive_erase _ hh | exact hn | exact hnp | exact nodup_hotPush _ hn | exact hn.erase _ | exact (hn.erase _).erase _ | exact hotLive_erase_upd _ hn hh | exact hotLive_erase_upd _ (hn.erase _) (hotLive_erase _ hh)))
-  all_goals (try (simp_all [cnt, drained, waitPcs, extPc, upd]; done))
-  all_goals (try (simp_all [cnt, drained, waitPcs, upd]; omega))
-  all_goals (try (intro t; simp only [upd]; split <;> simp_all [compl_unsched, compl_dropped]; done))
-  all_goals (try simp_all [cnt, drained, waitPcs, upd])
-
-@[simp] theorem kWrite_wk (s : State) : (kWrite s).wk = s.wk := rfl
-
-macro "w_step" h:ident : tactic => `(tactic| (
-  unfold wStep at $h:ident
-  try unfold mainDone at $h:ident
-  try simp only [kWrite_wk] at $h:ident
-  repeat' split at $h:ident
-  all_goals (try simp only [Option.some.injEq, reduceCtorEq] at $h:ident)
-  all_goals (try subst $h:ident)
-  all_goals (try simp only [setWk, subPending, kWrite])))
-
-set_option maxRecDepth 4000 in
-theorem g1_w (s s' : State) (w : Nat) (hw : w < s.cfg.nw) (h : Inv s) (hs : wStep s w = some s') :
-    s'.flag ≤ 3 ∧ s'.uflow = false ∧ s'.pending = s'.sync.length + cnt s' resvP + drained s'.rt ∧
-    (∀ t, t ∈ s'.hot → s'.dropped t = false) ∧
-    (∀ t, TaskState.isCompleted (s'.word t) = true → s'.dropped t = true) ∧
-    s'.hot.Nodup ∧ (∀ w, prePush (s'.wk w).pc = true → (s'.wk w).pushed = false) ∧
-    (waitPcs s'.rt = true → s'.hot ≠ [] → s'.zero = true) ∧ (extPc s'.rt = true → s'.cfg.loop = .ext) := by
-  have hx := h.extOnly
-  have hp := h.pend
-  have hu := h.noUflow
-  have hf := h.flagLe
-  have hh := h.hotLive
-  have hc := h.compl
-  have hz := h.zeroHot
-  have hn := h.hotNodup
-  have hnp := h.notPushed
-  have hnpw := h.notPushed w
-  simp only [cnt, cntUpTo_split _ _ _ _ hw] at hp
-  w_step hs
-  all_goals (refine ⟨?_, ?_, ?_, ?_, ?_, ?_, ?_, ?_, ?_⟩)
-  all_goals (try (first | exact hf | exact hu | exact hh | exact hc | exact wake_le hf | exact hn | exact hz | exact hx))
-  all_goals (try (intro t; simp only [upd]; split <;> simp_all [compl_start, compl_finish]; done))
-  all_goals (try (intro w1; by_cases h1 : w1 = w <;> simp_all [upd, prePush]; done))
-  all_goals (try (try simp only [cnt, cntUpTo_split _ _ _ _ hw, cntExcept_upd, upd_same]; simp_all [resvP, isTaskKind, prePush]; done))
-  all_goals (try (try simp only [cnt, cntUpTo_split _ _ _ _ hw, cntExcept_upd, upd_same]; simp_all [resvP, isTaskKind, prePush]; omega))
-  all_goals (try (try simp only [cnt, cntUpTo_split _ _ _ _ hw, cntExcept_upd, upd_same]; simp_all [resvP, isTaskKind, prePush]))
-  all_goals (try (
-    have hr : resvP (s.wk w) = true := by simp_all [resvP, isTaskKind, prePush]
-    simp only [hr, if_true] at hp
-    simp only [hu, Bool.false_or, decide_eq_false_iff_not]
-    omega))
-
-set_option maxRecDepth 4000 in
-theorem g2_rt (s s' : State) (e : RtEv) (h : Inv s) (hs : rtStep s e = some s') :
-    (∀ t, TaskState.isScheduled (s'.word t) = true → s'.dropped t = false →
-      TaskState.isCancelled (s'.word t) = false → t ∈ s'.sync ∨ t ∈ s'.hot ∨ 0 < cnt s' (holdsP t)) ∧
-    (∀ w t, (s'.wk w).kind = .task t → inCall (s'.wk w) = true → (s'.wk w).seq0 ≤ s'.pollSeq t) ∧
-    (∀ w t, (s'.wk w).kind = .task t → inCall (s'.wk w) = true → (s'.wk w).seq0 = s'.pollSeq t →
-      TaskState.isScheduled (s'.word t) = true) ∧
-    (∀ t, s'.woken t = true → TaskState.isScheduled (s'.word t) = true) := by
-  have h1 := h.sched
-  have h2 := h.seqLe
-  have h3 := h.unserved
-  have h4 := h.wokenSched
-  rt_step hs
-  all_goals (refine ⟨?_, ?_, ?_, ?_⟩)
-  all_goals (try (first | exact h1 | exact h2 | exact h3 | exact h4))
-  all_goals (try (simp only [cnt, upd] at *; grind [mem_hotPush, sched_unsched, sched_dropped, sched_finrun, List.mem_erase_of_ne]))
-
-
-set_option maxRecDepth 4000 in
-theorem g2_w (s s' : State) (w : Nat) (hw : w < s.cfg.nw) (h : Inv s) (hs : wStep s w = some s') :
-    (∀ t, TaskState.isScheduled (s'.word t) = true → s'.dropped t = false →
-      TaskState.isCancelled (s'.word t) = false → t ∈ s'.sync ∨ t ∈ s'.hot ∨ 0 < cnt s' (holdsP t)) ∧
-    (∀ w t, (s'.wk w).kind = .task t → inCall (s'.wk w) = true → (s'.wk w).seq0 ≤ s'.pollSeq t) ∧
-    (∀ w t, (s'.wk w).kind = .task t → inCall (s'.wk w) = true → (s'.wk w).seq0 = s'.pollSeq t →
-      TaskState.isScheduled (s'.word t) = true) ∧
-    (∀ t, s'.woken t = true → TaskState.isScheduled (s'.word t) = true) := by
-  have h1 := h.sched
-  have h2 := h.seqLe
-  have h3 := h.unserved
-  have h4 := h.wokenSched
-  have h5 := h.compl
-  have hnpw := h.notPushed w
-  simp only [cnt, cntUpTo_split _ _ _ _ hw] at h1
-  w_step hs
-  all_goals (refine ⟨?_, ?_, ?_, ?_⟩)
-  all_goals (try (first | exact h2 | exact h3 | exact h4))
-  all_goals (try (simp only [cnt, cntUpTo_split _ _ _ _ hw, cntExcept_upd, upd_same, upd, holdsP, inCall, prePush] at *; grind [sched_start, sched_finish, canc_start, canc_finish, compl_start]))
-
-set_option maxRecDepth 4000 in
-set_option maxHeartbeats 4000000 in
-theorem g3_rt (s s' : State) (e : RtEv) (h : Inv s) (hs : rtStep s e = some s') :
-    (s'.sync ≠ [] → cov s' = true ∨ 0 < cnt s' aboutP) ∧
-    (∀ w, (s'.wk w).kind = .main → inflightP (s'.wk w) = true → (s'.wk w).seq0 ≤ s'.mainSeq) ∧
-    (∀ w, (s'.wk w).kind = .main → inflightP (s'.wk w) = true → (s'.wk w).seq0 = s'.mainSeq → covM s' = true) ∧
-    (s'.mainWoken = true → covM s' = true) := by
-  have h1 := h.covSync
-  have h2 := h.mseqLe
-  have h3 := h.covMainW
-  have h4 := h.covMain
-  have hp := h.pend
-  have hf := h.flagLe
-  have hwn := wake_nbit hf
-  have hrs := reset_snd hf
-  have hx := h.extOnly
-  have hsync : s.pending = 0 → s.sync = [] := by
-    intro h0
-    have : s.sync.length = 0 := by omega
-    exact List.eq_nil_of_length_eq_zero this
-  rt_step hs
-  all_goals (refine ⟨?_, ?_, ?_, ?_⟩)
-  all_goals (try (first | exact h1 | exact h2 | exact h3 | exact h4))
-  all_goals (try (simp only [cnt, cov, covM, covOf, phase, mphase, retPhase, backPhase, reset_fst, set_eq, drained, extPc] at *; grind [nbit]))
-
-set_option maxRecDepth 4000 in
-set_option maxHeartbeats 4000000 in
-theorem g3_w (s s' : State) (w : Nat) (hw : w < s.cfg.nw) (hrw : s.cfg.rewake = true) (h : Inv s)
-    (hs : wStep s w = some s') :
-    (s'.sync ≠ [] → cov s' = true ∨ 0 < cnt s' aboutP) ∧
-    (∀ w, (s'.wk w).kind = .main → inflightP (s'.wk w) = true → (s'.wk w).seq0 ≤ s'.mainSeq) ∧
-    (∀ w, (s'.wk w).kind = .main → inflightP (s'.wk w) = true → (s'.wk w).seq0 = s'.mainSeq → covM s' = true) ∧
-    (s'.mainWoken = true → covM s' = true) := by
-  have h1 := h.covSync
-  have h2 := h.mseqLe
-  have h3 := h.covMainW
-  have h4 := h.covMain
-  have hf := h.flagLe
-  have hwn := wake_nbit hf
-  have hnpw := h.notPushed w
-  have h2w := h.mseqLe w
-  have h3w := h.covMainW w
-  simp only [cnt, cntUpTo_split _ _ _ _ hw] at h1
-  w_step hs
-  all_goals (refine ⟨?_, ?_, ?_, ?_⟩)
-  all_goals (try (first | exact h2 | exact h3 | exact h4))
-  all_goals (try (simp only [cnt, cntUpTo_split _ _ _ _ hw, cntExcept_upd, upd_same, upd, aboutP, inflightP, prePush, cov, covM, covOf] at *; grind [nbit]))
-
-def G4 (s' : State) : Prop :=
-    (s'.cfg.drv = .iour → s'.rt ≠ .clear → s'.arm = .live → 0 < s'.efd → s'.cq = true) ∧
-    (s'.cfg.drv = .iour → s'.rt = .wait → s'.arm = .live) ∧
-    (s'.cfg.drv = .iour → s'.rt = .submit → s'.arm ≠ .needPush) ∧
-    (s'.cfg.drv = .iour → (s'.rt = .xwait ∨ s'.rt = .xreset) → s'.arm = .live) ∧
-    (s'.cfg.drv = .iour → s'.rt = .xsubmit → s'.arm ≠ .needPush) ∧
-    ((phase s'.cfg.loop s'.rt = .sleep ∨ phase s'.cfg.loop s'.rt = .xsleep) → s'.flag ≤ 1) ∧
-    (phase s'.cfg.loop s'.rt = .sleep → nbit s'.flag = true → 0 < cnt s' inflightP ∨ 0 < s'.efd) ∧
-    (phase s'.cfg.loop s'.rt = .xsleep → nbit s'.flag = true → 0 < cnt s' inflightP ∨ fdReadable s' = true) ∧
-    (s'.pnot = true → 0 < s'.efd ∨ 0 < cnt s' writeP ∨ s'.rt = .pswap ∨ isLwrite s'.rt = true) ∧
-    ((s'.rt = .consume ∨ s'.rt = .clear) → s'.cfg.drv = .iour) ∧
-    (s'.pnot = true → s'.cfg.drv = .poll) ∧
-    (∀ w, (s'.wk w).pc = .cas → s'.cfg.drv = .poll) ∧
-    (isLcas s'.rt = true → s'.cfg.drv = .poll)
-
-theorem G4_of_inv {s : State} (h : Inv s) : G4 s :=
-  ⟨h.kq, h.armW, h.armS, h.armXW, h.armXS, h.sleepFlag, h.sig, h.xsig, h.pn, h.iourPc, h.pnotPoll, h.casPoll, h.lcasPoll⟩
-
-set_option maxRecDepth 4000 in
-set_option maxHeartbeats 4000000 in
-theorem g4_rt (s s' : State) (e : RtEv) (hfa : s.cfg.flushArms = true) (h : Inv s) (hs : rtStep s e = some s') :
-    G4 s' := by
-  have h1 := h.kq
-  have h2 := h.armW
-  have h3 := h.armS
-  have h4 := h.armXW
-  have h5 := h.armXS
-  have h6 := h.sleepFlag
-  have h7 := h.sig
-  have h8 := h.xsig
-  have h9 := h.pn
-  have h10 := h.iourPc
-  have h11 := h.pnotPoll
-  have h12 := h.casPoll
-  have h13 := h.lcasPoll
-  have hf := h.flagLe
-  have hx := h.extOnly
-  have hwn := wake_nbit hf
-  have hrs := reset_snd hf
-  unfold G4
-  rt_step hs
-  all_goals (refine ⟨?_, ?_, ?_, ?_, ?_, ?_, ?_, ?_, ?_, ?_, ?_, ?_, ?_⟩)
-  all_goals (try (first | exact h1 | exact h2 | exact h3 | exact h4 | exact h5 | exact h6 | exact h7 | exact h8 | exact h9 | exact h10 | exact h11 | exact h12 | exact h13))
-  all_goals (try (intro hd _; simp only [submits, hd]; cases ha : s.arm <;> simp_all; done))
-  all_goals (try (simp only [cnt, phase, retPhase, backPhase, reset_fst, set_eq, extPc, isLwrite, isLcas, fdReadable, posts, submits, armAfter] at *; grind [nbit]))
-
-theorem cntExcept_mono (n : Nat) (f : Nat → Wk) (p q : Wk → Bool) (w : Nat)
-    (hpq : ∀ k, p k = true → q k = true) : cntExcept n f p w ≤ cntExcept n f q w := by
-  induction n with
-  | zero => exact Nat.le_refl _
-  | succ n ih =>
-    simp only [cntExcept]
-    by_cases h : n = w
-    · simp [h]; simpa [h] using ih
-    · by_cases hp : p (f n) = true
-      · simp [h, hp, hpq _ hp]; omega
-      · simp [h, hp]; split <;> omega
-
-theorem backPhase_cases (b : Back) : backPhase b = .pre ∨ backPhase b = .post := by
-  cases b <;> simp [backPhase]
-
-theorem retPhase_cases (r : Ret) : retPhase r = .pre ∨ retPhase r = .post := by
-  cases r with
-  | tick => simp [retPhase]
-  | loc t b => simpa [retPhase] using backPhase_cases b
-
-theorem sleep_pc {l : Loop} {pc : RtPc} (h : phase l pc = .sleep) : pc = .arm ∨ pc = .submit ∨ pc = .wait := by
-  cases pc <;> simp only [phase] at h <;> first
-    | (simp; done)
-    | (exfalso; rename_i b; rcases backPhase_cases b with hb | hb <;> rw [hb] at h <;> cases h)
-    | (exfalso; rename_i r; rcases retPhase_cases r with hb | hb <;> rw [hb] at h <;> cases h)
-    | (exfalso; rename_i r d; rcases retPhase_cases r with hb | hb <;> rw [hb] at h <;> cases h)
-    | (exfalso; cases l <;> cases h)
-    | (exfalso; cases h)
-
-theorem xsleep_pc {l : Loop} {pc : RtPc} (h : phase l pc = .xsleep) : pc = .xwait := by
-  cases pc <;> simp only [phase] at h <;> first
-    | rfl
-    | (exfalso; rename_i b; rcases backPhase_cases b with hb | hb <;> rw [hb] at h <;> cases h)
-    | (exfalso; rename_i r; rcases retPhase_cases r with hb | hb <;> rw [hb] at h <;> cases h)
-    | (exfalso; rename_i r d; rcases retPhase_cases r with hb | hb <;> rw [hb] at h <;> cases h)
-    | (exfalso; cases l <;> cases h)
-    | (exfalso; cases h)
-
-set_option maxRecDepth 4000 in
-set_option maxHeartbeats 4000000 in
-theorem g4_w (s s' : State) (w : Nat) (hw : w < s.cfg.nw) (hfa : s.cfg.flushArms = true) (h : Inv s)
-    (hs : wStep s w = some s') : G4 s' := by
-  have h1 := h.kq
-  have h2 := h.armW
-  have h3 := h.armS
-  have h4 := h.armXW
-  have h5 := h.armXS
-  have h6 := h.sleepFlag
-  have h7 := h.sig
-  have h8 := h.xsig
-  have h9 := h.pn
-  have h10 := h.iourPc
-  have h11 := h.pnotPoll
-  have h12 := h.casPoll
-  have h13 := h.lcasPoll
-  have h12w := h.casPoll w
-  have hf := h.flagLe
-  have hx := h.extOnly
-  have hwn := wake_nbit hf
-  have hwr := wake_ret hf
-  have hw1 : s.flag ≤ 1 → (AwakeFlag.wake s.flag).1 = 1 := wake_le1
-  simp only [cnt, cntUpTo_split _ _ _ _ hw] at h7 h8 h9
-  have hmono := cntExcept_mono s.cfg.nw s.wk writeP inflightP w (by intro k hk; simp only [writeP, inflightP] at *; simp [hk])
-  have hsl := @sleep_pc s.cfg.loop s.rt
-  have hxsl := @xsleep_pc s.cfg.loop s.rt
-  unfold G4
-  w_step hs
-  all_goals (refine ⟨?_, ?_, ?_, ?_, ?_, ?_, ?_, ?_, ?_, ?_, ?_, ?_, ?_⟩)
-  all_goals (try (first | exact h1 | exact h2 | exact h3 | exact h4 | exact h5 | exact h6 | exact h10 | exact h11 | exact h12 | exact h13))
-  all_goals (try (simp only [cnt, cntUpTo_split _ _ _ _ hw, cntExcept_upd, upd_same, upd, inflightP, writeP, fdReadable, posts] at *; grind [nbit, isLwrite]))
 
 theorem inv_rt (s s' : State) (e : RtEv) (hfa : s.cfg.flushArms = true) (h : Inv s) (hs : rtStep s e = some s') :
     Inv s' := by
@@ -331,11 +12,12 @@ theorem inv_rt (s s' : State) (e : RtEv) (hfa : s.cfg.flushArms = true) (h : Inv
   obtain ⟨b1, b2, b3, b4⟩ := g2_rt s s' e h hs
   obtain ⟨c1, c2, c3, c4⟩ := g3_rt s s' e h hs
   obtain ⟨d1, d2, d3, d4, d5, d6, d7, d8, d9, d10, d11, d12, d13⟩ := g4_rt s s' e hfa h hs
+  obtain ⟨e1, e2⟩ := g5_rt s s' e h hs
   exact { flagLe := a1, noUflow := a2, pend := a3, hotLive := a4, compl := a5, hotNodup := a6, notPushed := a7,
           zeroHot := a8, extOnly := a9, sched := b1, seqLe := b2, unserved := b3, wokenSched := b4,
           covSync := c1, mseqLe := c2, covMainW := c3, covMain := c4,
           kq := d1, armW := d2, armS := d3, armXW := d4, armXS := d5, sleepFlag := d6, sig := d7, xsig := d8, pn := d9,
-          iourPc := d10, pnotPoll := d11, casPoll := d12, lcasPoll := d13 }
+          iourPc := d10, pnotPoll := d11, casPoll := d12, lcasPoll := d13, nxtHead := e1, nxtNe := e2 }
 
 theorem inv_w (s s' : State) (w : Nat) (hw : w < s.cfg.nw) (hfa : s.cfg.flushArms = true) (hrw : s.cfg.rewake = true)
     (h : Inv s) (hs : wStep s w = some s') : Inv s' := by
@@ -343,11 +25,12 @@ theorem inv_w (s s' : State) (w : Nat) (hw : w < s.cfg.nw) (hfa : s.cfg.flushArm
   obtain ⟨b1, b2, b3, b4⟩ := g2_w s s' w hw h hs
   obtain ⟨c1, c2, c3, c4⟩ := g3_w s s' w hw hrw h hs
   obtain ⟨d1, d2, d3, d4, d5, d6, d7, d8, d9, d10, d11, d12, d13⟩ := g4_w s s' w hw hfa h hs
+  obtain ⟨e1, e2⟩ := g5_w s s' w h hs
   exact { flagLe := a1, noUflow := a2, pend := a3, hotLive := a4, compl := a5, hotNodup := a6, notPushed := a7,
           zeroHot := a8, extOnly := a9, sched := b1, seqLe := b2, unserved := b3, wokenSched := b4,
           covSync := c1, mseqLe := c2, covMainW := c3, covMain := c4,
           kq := d1, armW := d2, armS := d3, armXW := d4, armXS := d5, sleepFlag := d6, sig := d7, xsig := d8, pn := d9,
-          iourPc := d10, pnotPoll := d11, casPoll := d12, lcasPoll := d13 }
+          iourPc := d10, pnotPoll := d11, casPoll := d12, lcasPoll := d13, nxtHead := e1, nxtNe := e2 }
 
 set_option maxRecDepth 4000 in
 set_option maxHeartbeats 4000000 in
@@ -355,7 +38,7 @@ theorem inv_wStart (s : State) (w : Nat) (k : Kind) (hw : w < s.cfg.nw) (hidle :
     Inv (setWk s w { pc := match k with | .main => .dwake | .task _ => .sched,
                      kind := k, notified := false, pushed := false, seq0 := 0 }) := by
   have hh := h
-  obtain ⟨a1, a2, a3, a4, a5, a6, a7, a8, a9, b1, b2, b3, b4, c1, c2, c3, c4, d1, d2, d3, d4, d5, d6, d7, d8, d9, d10, d11, d12, d13⟩ := hh
+  obtain ⟨a1, a2, a3, a4, a5, a6, a7, a8, a9, b1, b2, b3, b4, c1, c2, c3, c4, d1, d2, d3, d4, d5, d6, d7, d8, d9, d10, d11, d12, d13, e1, e2⟩ := hh
   simp only [cnt, cntUpTo_split _ _ _ _ hw] at *
   cases k <;> constructor
   all_goals (try (simp only [setWk, cnt, cntUpTo_split _ _ _ _ hw, cntExcept_upd, upd_same, upd, resvP, holdsP, aboutP, inflightP, writeP, isTaskKind, prePush, inCall, cov, covM, covOf, fdReadable] at *; grind))
@@ -364,9 +47,93 @@ set_option maxRecDepth 4000 in
 set_option maxHeartbeats 4000000 in
 theorem inv_cancel (s : State) (t : Nat) (h : Inv s) :
     Inv { s with word := upd s.word t (TaskState.setCancelled (s.word t)) } := by
-  obtain ⟨a1, a2, a3, a4, a5, a6, a7, a8, a9, b1, b2, b3, b4, c1, c2, c3, c4, d1, d2, d3, d4, d5, d6, d7, d8, d9, d10, d11, d12, d13⟩ := h
+  obtain ⟨a1, a2, a3, a4, a5, a6, a7, a8, a9, b1, b2, b3, b4, c1, c2, c3, c4, d1, d2, d3, d4, d5, d6, d7, d8, d9, d10, d11, d12, d13, e1, e2⟩ := h
   constructor
   all_goals (first | assumption | (simp only [cnt, upd, cov, covM, fdReadable] at *; grind [sched_cancel, canc_cancel, compl_cancel]))
 
+
+theorem cntUpTo_const (n : Nat) (k : Wk) (p : Wk → Bool) (hp : p k = false) : cntUpTo n (fun _ => k) p = 0 := by
+  induction n with
+  | zero => rfl
+  | succ n ih => simp [cntUpTo, ih, hp]
+
+theorem inv_init (cfg : Cfg) : Inv (init cfg) := by
+  constructor
+  all_goals (simp only [init, cnt, new_eq, cov, covM, covOf, phase, mphase, fdReadable, drained, waitPcs, extPc, isLcas, isLwrite, Wk.init, nxtOf, curOf, backOf] at *)
+  all_goals (try (first | omega | (intros; simp_all [sched_new, compl_new, canc_new, nbit, inCall, prePush, inflightP]; done)))
+  all_goals (try (rw [cntUpTo_const _ _ _ (by rfl)]))
+  all_goals simp
+
+theorem rtStep_cfg {s s' : State} {e : RtEv} (hs : rtStep s e = some s') : s'.cfg = s.cfg := by
+  rt_step hs
+  all_goals rfl
+
+theorem wStep_cfg {s s' : State} {w : Nat} (hs : wStep s w = some s') : s'.cfg = s.cfg := by
+  w_step hs
+  all_goals rfl
+
+theorem step_cfg {s s' : State} {ev : Event} (hs : step s ev = some s') : s'.cfg = s.cfg := by
+  cases ev with
+  | rt e => exact rtStep_cfg hs
+  | wStart w k =>
+    simp only [step] at hs
+    split at hs
+    · simp only [Option.some.injEq] at hs; subst hs; rfl
+    · cases hs
+  | w w =>
+    simp only [step] at hs
+    split at hs
+    · exact wStep_cfg hs
+    · cases hs
+  | cancel t => simp only [step, Option.some.injEq] at hs; subst hs; rfl
+
+theorem inv_step {s s' : State} {ev : Event} (hfa : s.cfg.flushArms = true) (hrw : s.cfg.rewake = true)
+    (h : Inv s) (hs : step s ev = some s') : Inv s' := by
+  cases ev with
+  | rt e => exact inv_rt s s' e hfa h hs
+  | wStart w k =>
+    simp only [step] at hs
+    split at hs
+    · rename_i hc
+      simp only [Bool.and_eq_true, decide_eq_true_eq, beq_iff_eq] at hc
+      simp only [Option.some.injEq] at hs; subst hs
+      exact inv_wStart s w k hc.1 hc.2 h
+    · cases hs
+  | w w =>
+    simp only [step] at hs
+    split at hs
+    · rename_i hc
+      exact inv_w s s' w (by simpa using hc) hfa hrw h hs
+    · cases hs
+  | cancel t =>
+    simp only [step, Option.some.injEq] at hs; subst hs
+    exact inv_cancel s t h
+
+theorem run_cfg {s s' : State} {evs : List Event} (hs : run s evs = some s') : s'.cfg = s.cfg := by
+  induction evs generalizing s with
+  | nil => simp only [run, Option.some.injEq] at hs; subst hs; rfl
+  | cons e es ih =>
+    simp only [run] at hs
+    split at hs
+    · rename_i s1 h1
+      rw [ih hs, step_cfg h1]
+    · cases hs
+
+theorem inv_run {s s' : State} {evs : List Event} (hfa : s.cfg.flushArms = true) (hrw : s.cfg.rewake = true)
+    (h : Inv s) (hs : run s evs = some s') : Inv s' := by
+  induction evs generalizing s with
+  | nil => simp only [run, Option.some.injEq] at hs; subst hs; exact h
+  | cons e es ih =>
+    simp only [run] at hs
+    split at hs
+    · rename_i s1 h1
+      have hc := step_cfg h1
+      exact ih (by rw [hc]; exact hfa) (by rw [hc]; exact hrw) (inv_step hfa hrw h h1) hs
+    · cases hs
+
+theorem inv_reachable {cfg : Cfg} {s : State} (hfa : cfg.flushArms = true) (hrw : cfg.rewake = true)
+    (h : Reachable cfg s) : Inv s := by
+  obtain ⟨evs, he⟩ := h
+  exact inv_run (s := init cfg) hfa hrw (inv_init cfg) he
 
 end Compio.Wake
